@@ -786,6 +786,9 @@ func endTxn(o *ConsObs, tx *txnProd, commit bool) {
 	}
 }
 
+// ClassifyTxn is the exported form of classifyTxn.
+func ClassifyTxn(recs []bubble.LogRec) (aborted, open map[int64]bool) { return classifyTxn(recs) }
+
 // classifyTxn derives, from the raw log only, which transactional data offsets belong to
 // aborted transactions and which to transactions still open at the end of the log.
 func classifyTxn(recs []bubble.LogRec) (aborted, open map[int64]bool) {
